@@ -397,20 +397,55 @@ def s_abs(a):
 
 
 # ---------------------------------------------------------------- sums
+SCOPE = []     # index variables currently in scope (symbolic loop variables of the interpreter, bound
+               # variables of spec quantifiers): sums / selections whose body mentions them are parametric
+
+
+def _scope_params(body):
+    """scope variables occurring in term body, in scope order"""
+    if not SCOPE:
+        return []
+    names = _consts_of(body)
+    return [v for v in SCOPE if v.decl().name() in names]
+
+
+def _consts_of(t):
+    out = set()
+    seen = set()
+    stack = [t]
+    while stack:
+        x = stack.pop()
+        i = x.get_id()
+        if i in seen:
+            continue
+        seen.add(i)
+        if z3.is_quantifier(x):
+            stack.append(x.body())
+        elif z3.is_app(x):
+            if x.num_args() == 0 and x.decl().kind() == z3.Z3_OP_UNINTERPRETED:
+                out.add(x.decl().name())
+            stack.extend(x.children())
+    return out
+
+
+def _canon_params(n):
+    return [z3.Int(f'par!{k}') for k in range(n)]
+
+
 class Sums:
     """Finite sums with symbolic bounds as prefix-sum functions.
 
-    For a summand closure g the registry returns an uninterpreted function P with the meaning
-    P(h) = sum_{j<h} g(j); the recursion axiom  forall h>=0: P(h+1) = P(h) + g(h),  P(0) = 0
-    is added to every query that mentions P.  Two closures whose bodies simplify to the same
-    term on a canonical index share P (so `cumsum(a*dt)` in the code and the spec's
-    `sum_{j<=r} a*dt[j]` are the same symbol); bodies that differ syntactically are unified
-    only if z3 proves them pointwise equal (Sums.unify, one small query).
+    For a summand closure g the registry returns P with the meaning P(h) = sum_{j<h} g(j); the recursion
+    axioms  P(0) = 0,  forall h >= 0: P(h+1) = P(h) + g(h)  go into every query.  If the summand mentions
+    index variables that are in scope (a symbolic loop variable, the bound variable of a spec quantifier)
+    the function is parametric in them: P(k, h), with axioms quantified over k.  Two closures whose bodies
+    simplify to the same term (after renaming the parameters canonically) share P, so `cumsum(a*dt)` in the
+    code and the spec's `sum_{j<=r} a*dt[j]` are the same symbol; bodies that differ syntactically are
+    unified only if z3 proves them pointwise equal.
     """
 
     def __init__(self):
-        self.entries = []     # (body term over self.j, func, sort)
-        self.pentries = []    # parametric: (body over self.j and sum!p, func, sort, True)
+        self.entries = []     # (canonical body over self.j and par!k, func, sort, nparams)
         self.zero_lemma_uses = 0
         self.j = z3.Int('sum!j')
 
@@ -435,69 +470,60 @@ class Sums:
             if s.check() == z3.unsat:
                 self.zero_lemma_uses += 1
                 return lambda h: zero
-        for (b, f, srt) in self.entries:
-            if srt == body.sort() and b.eq(body):
-                return f
-        # try semantic unification with an existing body of the same sort
-        for (b, f, srt) in self.entries:
-            if srt == body.sort():
-                s = z3.Solver()
-                s.set('timeout', 500)
-                if ctx:
-                    s.add(*ctx)
-                s.add(b != body)
-                if s.check() == z3.unsat:
-                    return f
-        f = z3.Function(fresh_name('psum'), z3.IntSort(), body.sort())
-        self.entries.append((body, f, body.sort()))
-        return f
+        params = _scope_params(body)
+        canon = _canon_params(len(params))
+        cbody = z3.simplify(z3.substitute(body, *zip(params, canon))) if params else body
+        f = None
+        for (b, fn, srt, np_) in self.entries:
+            if srt == cbody.sort() and np_ == len(params) and b.eq(cbody):
+                f = fn
+                break
+        if f is None and not params:
+            for (b, fn, srt, np_) in self.entries:
+                if srt == cbody.sort() and np_ == 0:
+                    s = z3.Solver()
+                    s.set('timeout', 500)
+                    if ctx:
+                        s.add(*[c for c in ctx if not z3.is_quantifier(c)])
+                    s.add(b != cbody)
+                    if s.check() == z3.unsat:
+                        f = fn
+                        break
+        if f is None:
+            f = z3.Function(fresh_name('psum'), *([z3.IntSort()] * (len(params) + 1)), cbody.sort())
+            self.entries.append((cbody, f, cbody.sort(), len(params)))
+        if not params:
+            return f
+        return lambda h, f=f, params=tuple(params): f(*params, lift(h))
 
     def prefix_param(self, g, param, ctx=None):
-        """prefix sum whose summand depends on an extra integer parameter p (e.g. the target cell
-        of an accumulation loop): returns a closure h -> P(p, h) with P(p,h) = sum_{j<h} g(j)[p]."""
-        pv = z3.Int('sum!p')
-        probe = z3.Int(fresh_name('sum!probe'))
-        body = lift(g(self.j))
-        if z3.is_bool(body):
-            body = to_int(body)
-        # abstract the concrete parameter term into the bound parameter pv
-        body = z3.simplify(z3.substitute(body, (lift(param), pv))) if not lift(param).eq(pv) else z3.simplify(body)
-        for (b, f, srt, isparam) in self.pentries:
-            if srt == body.sort() and b.eq(body):
-                return lambda h: f(lift(param), lift(h))
-        f = z3.Function(fresh_name('psum2'), z3.IntSort(), z3.IntSort(), body.sort())
-        self.pentries.append((body, f, body.sort(), True))
-        return lambda h: f(lift(param), lift(h))
+        """prefix sum whose summand depends on the integer term `param` (e.g. the target cell of an
+        accumulation loop): the term is abstracted into a parameter; returns h -> P(param, h)."""
+        pv = z3.Int(fresh_name('sum!pv'))
+        SCOPE.append(pv)
+        try:
+            P = self.prefix(lambda j: z3.substitute(lift(g(j)), (lift(param), pv)) if not is_z3(param) or True else g(j), ctx)
+        finally:
+            SCOPE.pop()
+        return lambda h: z3.substitute(lift(P(h)), (pv, lift(param)))
 
     def axioms(self, used=None):
         out = []
         h = z3.Int('sum!h')
-        pv = z3.Int('sum!p')
-        for (b, f, srt, _) in self.pentries:
+        for (b, f, srt, np_) in self.entries:
             if used is not None and f.name() not in used:
                 continue
             zero = z3.IntVal(0) if srt == z3.IntSort() else z3.RealVal(0)
-            out.append(z3.ForAll([pv], f(pv, 0) == zero, patterns=[f(pv, 0)]))
-            out.append(z3.ForAll([pv, h], z3.Implies(h >= 0, f(pv, h + 1) == f(pv, h) + z3.substitute(b, (self.j, h))),
-                                 patterns=[f(pv, h + 1)]))
-            out.append(z3.ForAll([pv, h], z3.Implies(h >= 1, f(pv, h) == f(pv, h - 1) + z3.substitute(b, (self.j, h - 1))),
-                                 patterns=[f(pv, h)]))
-        for (b, f, srt) in self.entries:
-            if used is not None and f.name() not in used:
-                continue
-            zero = z3.IntVal(0) if srt == z3.IntSort() else z3.RealVal(0)
-            out.append(f(0) == zero)
-            out.append(z3.ForAll([h], z3.Implies(h >= 0, f(h + 1) == f(h) + z3.substitute(b, (self.j, h))),
-                                 patterns=[f(h + 1)]))
-            out.append(z3.ForAll([h], z3.Implies(h >= 1, f(h) == f(h - 1) + z3.substitute(b, (self.j, h - 1))),
-                                 patterns=[f(h)]))
+            ps = _canon_params(np_)
+            if np_ == 0:
+                out.append(f(0) == zero)
+            else:
+                out.append(z3.ForAll(ps, f(*ps, 0) == zero, patterns=[f(*ps, 0)]))
+            out.append(z3.ForAll(ps + [h], z3.Implies(h >= 0, f(*ps, h + 1) == f(*ps, h) + z3.substitute(b, (self.j, h))),
+                                 patterns=[f(*ps, h + 1)]))
+            out.append(z3.ForAll(ps + [h], z3.Implies(h >= 1, f(*ps, h) == f(*ps, h - 1) + z3.substitute(b, (self.j, h - 1))),
+                                 patterns=[f(*ps, h)]))
         return out
-
-    def body_of(self, fname):
-        for (b, f, srt) in self.entries:
-            if f.name() == fname:
-                return b
-        return None
 
 
 SUMS = Sums()
@@ -714,7 +740,10 @@ def ew(op, *args):
     if rank == 0:
         return op(*args)
     if rank == 1:
-        n = next(a.n for a in args if isinstance(a, Arr))
+        arrs = [a for a in args if isinstance(a, Arr)]
+        n = arrs[0].n
+        if any(not _same_len(n, a.n) for a in arrs[1:]):
+            return _ew_broadcast(op, args, arrs)
         # keep compress structure if all array operands are compressed by the same mask
         comps = [a.comp for a in args if isinstance(a, Arr)]
         comp = None
@@ -755,6 +784,32 @@ def ew(op, *args):
                 nc = a.nc
     cs = [cell(a) for a in args]
     return Mat(nr, nc, lambda r, c: op(*[g(r, c) for g in cs]), sparse=m.sparse)
+
+
+def _same_len(a, b):
+    if a is b:
+        return True
+    ca, cb = concrete_int(a), concrete_int(b)
+    if ca is not None and cb is not None:
+        return ca == cb
+    return z3.is_true(z3.simplify(lift(a) == lift(b)))
+
+
+def _ew_broadcast(op, args, arrs):
+    """numpy broadcasting of 1-D operands whose lengths are not syntactically equal: an operand of length 1
+    is stretched; the result length is the length of the operands that are not of length 1.  (Other length
+    mismatches make numpy raise ValueError; that is not modelled -- lengths are then assumed equal.)"""
+    n = arrs[0].n
+    for a in arrs[1:]:
+        n = ite(cmpop('Eq', n, 1), a.n, n)
+    fs = []
+    for a in args:
+        if isinstance(a, Arr):
+            fs.append(lambda i, _f=a.f, _n=a.n: _f(ite(cmpop('Eq', _n, 1), 0, i)))
+        else:
+            fs.append(lambda i, a=a: a)
+    n = simp(n) if is_z3(n) else n
+    return Arr(n, lambda i: op(*[f(i) for f in fs]))
 
 
 BINOPS = {'Add': s_add, 'Sub': s_sub, 'Mult': s_mul, 'Div': s_div, 'FloorDiv': s_floordiv, 'Mod': s_mod,
@@ -841,59 +896,69 @@ def exists_arr(a, pred=None):
 
 # ---------------------------------------------------------------- compress (boolean-mask selection)
 class Compress:
-    """Registry of boolean masks and their selection functions.
+    """Registry of boolean masks and their selection functions (axioms of numpy boolean-mask indexing, A2).
 
-    For a mask m of length n:  cnt = #{k<n : m[k]},  sel : [0,cnt) -> [0,n) strictly increasing
-    with range {k : m[k]},  rank : inverse on the selected positions.  These are the axioms of
-    numpy boolean-mask indexing (A2); two selections with the same mask object share sel.
-    """
+    For a mask m of length n:  cnt = #{k<n : m[k]},  sel : [0,cnt) -> [0,n) strictly increasing with range
+    {k : m[k]},  rank : its inverse on the selected positions.  Two selections with the same mask share
+    them.  A mask that mentions index variables in scope (loop variable, spec quantifier) gets parametric
+    functions cnt(k), sel(k, p), rank(k, j)."""
 
     def __init__(self):
-        self.masks = []    # (mask Arr, cnt, sel, rank)
+        self.entries = []    # (canonical mask body over probe, canonical length, nparams, cntF, selF, rankF)
+        self.by_obj = []     # (mask Arr object, (cnt, sel, rank) closures)
+        self.probe = z3.Int('cmp!probe')
 
     def get(self, mask):
-        for (m, cnt, sel, rank) in self.masks:
+        for (m, triple) in self.by_obj:
             if m is mask:
-                return cnt, sel, rank
-        # structural sharing: same length and same element term on a probe index
-        probe = z3.Int('cmp!probe')
-        try:
-            pt = simp(to_bool(mask.f(probe)))
-            for (m, cnt, sel, rank) in self.masks:
-                if simp(lift(m.n) == lift(mask.n)) is not None and z3.is_true(simp(lift(m.n) == lift(mask.n))) \
-                        and simp(to_bool(m.f(probe))).eq(pt):
-                    self.masks.append((mask, cnt, sel, rank))
-                    return cnt, sel, rank
-        except Unsupported:
-            pass
-        k = len(self.masks)
-        cnt = z3.Int(fresh_name(f'cnt{k}'))
-        sel = z3.Function(fresh_name(f'sel{k}'), z3.IntSort(), z3.IntSort())
-        rank = z3.Function(fresh_name(f'rank{k}'), z3.IntSort(), z3.IntSort())
-        self.masks.append((mask, cnt, sel, rank))
-        return cnt, sel, rank
+                return triple
+        body = z3.simplify(to_bool(mask.f(self.probe)))
+        n = z3.simplify(lift(mask.n))
+        params = _scope_params(z3.And(body, n >= 0))
+        canon = _canon_params(len(params))
+        cbody = z3.simplify(z3.substitute(body, *zip(params, canon))) if params else body
+        cn = z3.simplify(z3.substitute(n, *zip(params, canon))) if params else n
+        ent = None
+        for e in self.entries:
+            if e[2] == len(params) and e[0].eq(cbody) and e[1].eq(cn):
+                ent = e
+                break
+        if ent is None:
+            k = len(self.entries)
+            ints = [z3.IntSort()] * len(params)
+            cntF = z3.Function(fresh_name(f'cnt{k}'), *ints, z3.IntSort()) if params else z3.Int(fresh_name(f'cnt{k}'))
+            selF = z3.Function(fresh_name(f'sel{k}'), *ints, z3.IntSort(), z3.IntSort())
+            rankF = z3.Function(fresh_name(f'rank{k}'), *ints, z3.IntSort(), z3.IntSort())
+            ent = (cbody, cn, len(params), cntF, selF, rankF)
+            self.entries.append(ent)
+        _, _, np_, cntF, selF, rankF = ent
+        ps = tuple(params)
+        cnt = cntF(*ps) if np_ else cntF
+        sel = (lambda p_, ps=ps, selF=selF: selF(*ps, lift(p_)))
+        rank = (lambda j_, ps=ps, rankF=rankF: rankF(*ps, lift(j_)))
+        triple = (cnt, sel, rank)
+        self.by_obj.append((mask, triple))
+        return triple
 
     def axioms(self):
         out = []
-        seen = set()
-        for (m, cnt, sel, rank) in self.masks:
-            if cnt.decl().name() in seen:
-                continue
-            seen.add(cnt.decl().name())
-            n = lift(m.n)
-            p, q, k = z3.Ints('cmp!p cmp!q cmp!k')
-            out.append(z3.And(cnt >= 0, cnt <= n))
-            out.append(z3.ForAll([p], z3.Implies(z3.And(p >= 0, p < cnt),
-                                                 z3.And(sel(p) >= 0, sel(p) < n, to_bool(m.f(sel(p))), rank(sel(p)) == p)),
-                                 patterns=[sel(p)]))
-            out.append(z3.ForAll([p, q], z3.Implies(z3.And(p >= 0, p < q, q < cnt), sel(p) < sel(q)),
-                                 patterns=[z3.MultiPattern(sel(p), sel(q))]))
-            out.append(z3.ForAll([k], z3.Implies(z3.And(k >= 0, k < n, to_bool(m.f(k))),
-                                                 z3.And(rank(k) >= 0, rank(k) < cnt, sel(rank(k)) == k)),
-                                 patterns=[rank(k)]))
-            # cnt = 0 iff no element selected; cnt = n iff all selected (useful corner facts)
-            out.append(z3.Implies(cnt == 0, z3.ForAll([k], z3.Implies(z3.And(k >= 0, k < n), z3.Not(to_bool(m.f(k)))))))
-            out.append(z3.Implies(cnt == n, z3.ForAll([k], z3.Implies(z3.And(k >= 0, k < n), sel(k) == k), patterns=[sel(k)])))
+        p, q, k = z3.Ints('cmp!p cmp!q cmp!k')
+        for (cbody, n, np_, cntF, selF, rankF) in self.entries:
+            ps = _canon_params(np_)
+            cnt = cntF(*ps) if np_ else cntF
+            sel = lambda x: selF(*ps, x)
+            rank = lambda x: rankF(*ps, x)
+            m = lambda x: z3.substitute(cbody, (self.probe, x))
+
+            def Q(vs, body, pats):
+                return z3.ForAll(ps + vs, body, patterns=pats) if (ps or vs) else body
+            out.append(Q([], z3.And(cnt >= 0, cnt <= n), [cnt] if np_ else []))
+            out.append(Q([p], z3.Implies(z3.And(p >= 0, p < cnt), z3.And(sel(p) >= 0, sel(p) < n, m(sel(p)), rank(sel(p)) == p)), [sel(p)]))
+            out.append(Q([p, q], z3.Implies(z3.And(p >= 0, p < q, q < cnt), sel(p) < sel(q)), [z3.MultiPattern(sel(p), sel(q))]))
+            out.append(Q([k], z3.Implies(z3.And(k >= 0, k < n, m(k)), z3.And(rank(k) >= 0, rank(k) < cnt, sel(rank(k)) == k)), [rank(k)]))
+            if not np_:
+                out.append(z3.Implies(cnt == 0, z3.ForAll([k], z3.Implies(z3.And(k >= 0, k < n), z3.Not(m(k))))))
+                out.append(z3.Implies(cnt == n, z3.ForAll([k], z3.Implies(z3.And(k >= 0, k < n), sel(k) == k), patterns=[sel(k)])))
         return out
 
 
